@@ -34,6 +34,7 @@ using namespace ephemeralnet;
 namespace ephemeralnet::test {
 class NodeTestAccess {
 public:
+    static void announce(Node& n, const protocol::AnnouncePayload& p, const PeerId& s, std::uint8_t v) { n.handle_announce(p, s, v); }
     static std::recursive_mutex& mtx(Node& n) { return n.scheduler_mutex_; }
     static std::optional<std::uint64_t> work(Node& n, const PeerId& p) { return n.generate_handshake_work(p); }
 };
@@ -220,7 +221,20 @@ int main(int argc, char** argv) {
             usleep(1000);
         }
     });
+    // what a session reader thread does with an ANNOUNCE that assigns this node a shard, at a higher rate than the loopback sessions
+    // above reach: entries of the fetch table come and go (the announcer is unreachable) while the loop thread ticks
+    std::thread announcer([&] {
+        Node donor(pid(7000), base_cfg(0x7000u));
+        for (long it = 0; it < iters * 12 && run.load(); ++it) {
+            auto man = donor.store_chunk(cid(3000 + it % 8), std::vector<std::uint8_t>(24, static_cast<std::uint8_t>(it)), std::chrono::seconds(30));
+            protocol::AnnouncePayload ap{}; ap.chunk_id = cid(3000 + it % 8); ap.peer_id = pid(7001 + it); ap.endpoint = "127.0.0.1:1";
+            ap.ttl = std::chrono::seconds(20); ap.manifest_uri = protocol::encode_manifest(man); ap.assigned_shards = {1};
+            Acc::announce(*a, ap, pid(7001 + it), protocol::kCurrentMessageVersion);   // a new peer each time: the per-peer throttle (C21) stays out of the way
+            if (it % 16 == 15) usleep(200);
+        }
+    });
     ctl.join();
+    announcer.join();
     for (auto& t : peers) t.join();
     run.store(false);
     ticker.join();
